@@ -220,7 +220,19 @@ class SbxRun:
             if inputs is not None:
                 self.ref.set_inputs(inputs if isinstance(inputs, (list, tuple)) else [inputs])
             rfault = fault if (fault and fault.get('kind') == 'sync_student' and not op.get('nomirror')) else None
-            if kind == 'run':
+            if kind == 'run' and (op.get('before') is not None or op.get('after') is not None):
+                # run(before=..., after=...): up to three executions in a row, each with its own record
+                multi = []
+                if op.get('before') is not None:
+                    multi.append(self.ref.run(op['before'], None))
+                multi.append(self.ref.run(op.get('code'), op.get('filename'), fault=rfault))
+                refres = dict(multi[-1])
+                if op.get('after') is not None:
+                    multi.append(self.ref.run(op['after'], None))
+                for m_ in multi:
+                    m_.pop('value', None)
+                o['ref_multi'] = multi
+            elif kind == 'run':
                 refres = self.ref.run(op.get('code'), op.get('filename'), fault=rfault)
             elif kind == 'call':
                 rargs = op_args(op)
@@ -266,7 +278,7 @@ class SbxRun:
             try:
                 if kind == 'run':
                     ret = C.run(code=op.get('code'), filename=op.get('filename'), inputs=inputs,
-                                threaded=op.get('threaded'))
+                                threaded=op.get('threaded'), before=op.get('before'), after=op.get('after'))
                 elif kind == 'call':
                     ret = C.call(op['fn'], *op_args(op), inputs=inputs, threaded=op.get('threaded'),
                                  target=op.get('target', '_'), args_locals=op.get('args_locals'),
